@@ -813,4 +813,111 @@ def defaultAddr : Ref → Int
   | .stat s => 2 * (s.code : Int)
   | .dyn i => 2 * (i : Int) + 1
 
+/-! ### Several Lexicons in one process
+
+A process may hold any number of Lexicons, create them at any time, destroy one and construct the next in the same
+storage.  The process-wide constants (`Static`) are values without state; everything else a Lexicon answers lives in
+its own `State1`.  `procStep` is the specification of that: a request addressed to Lexicon `k` reads and changes the
+state of Lexicon `k` only; `renew k` replaces it by the state of a newly constructed Lexicon.  (`harness/unifyprobe.cxx`
+runs exactly such event lists — `lexicon k`, `new` / `renew` — on real Lexicons; the model driver interprets the same
+lines with this step function.) -/
+
+inductive Ev
+  | req (k : Nat) (r : Req)      -- a request made of Lexicon `k`
+  | renew (k : Nat)              -- Lexicon `k` is destroyed and a fresh one takes its place (possibly at the same address)
+  deriving Repr, Inhabited
+
+abbrev Proc := Nat → State1
+
+def Proc.fresh : Proc := fun _ => {}
+
+def Proc.set (p : Proc) (k : Nat) (s : State1) : Proc := fun j => if j = k then s else p j
+
+def procStep (addr : Ref → Int) (cfg : Config) (p : Proc) : Ev → Proc × Option (Option Ref)
+  | .req k r =>
+    let a := exec1 addr cfg (p k) r
+    (p.set k a.1, some a.2)
+  | .renew k => (p.set k {}, none)
+
+def procRun (addr : Ref → Int) (cfg : Config) : Proc → List Ev → Proc × List (Option (Option Ref))
+  | p, [] => (p, [])
+  | p, e :: es =>
+    let a := procStep addr cfg p e
+    let b := procRun addr cfg a.1 es
+    (b.1, a.2 :: b.2)
+
+/-- The history of the present incarnation of Lexicon `k`: the requests addressed to `k` since its last `renew`
+    (`acc`: those it had received before `evs`). -/
+def lifeOf (k : Nat) : List Req → List Ev → List Req
+  | acc, [] => acc
+  | acc, .req j r :: es => lifeOf k (if j = k then acc ++ [r] else acc) es
+  | acc, .renew j :: es => lifeOf k (if j = k then [] else acc) es
+
+section RunLemmas
+variable {σ : Type} (intern : σ → Tag → Key → List Ref → σ × Nat) (heapOf : σ → Heap) (cfg : Config)
+
+theorem runWith_append (s : σ) (a b : List Req) :
+    runWith intern heapOf cfg s (a ++ b) =
+      ((runWith intern heapOf cfg (runWith intern heapOf cfg s a).1 b).1,
+       (runWith intern heapOf cfg s a).2 ++ (runWith intern heapOf cfg (runWith intern heapOf cfg s a).1 b).2) := by
+  induction a generalizing s with
+  | nil => simp [runWith]
+  | cons r rs ih => simp [runWith, ih]
+
+theorem runWith_snoc (s : σ) (a : List Req) (r : Req) :
+    runWith intern heapOf cfg s (a ++ [r]) =
+      ((execWith intern heapOf cfg (runWith intern heapOf cfg s a).1 r).1,
+       (runWith intern heapOf cfg s a).2 ++ [(execWith intern heapOf cfg (runWith intern heapOf cfg s a).1 r).2]) := by
+  rw [runWith_append]; simp [runWith]
+
+theorem runWith_length (s : σ) (a : List Req) : (runWith intern heapOf cfg s a).2.length = a.length := by
+  induction a generalizing s with
+  | nil => simp [runWith]
+  | cons r rs ih => simp [runWith, ih]
+
+end RunLemmas
+
+theorem procRun_append (addr : Ref → Int) (cfg : Config) (p : Proc) (a b : List Ev) :
+    procRun addr cfg p (a ++ b) =
+      ((procRun addr cfg (procRun addr cfg p a).1 b).1, (procRun addr cfg p a).2 ++ (procRun addr cfg (procRun addr cfg p a).1 b).2) := by
+  induction a generalizing p with
+  | nil => simp [procRun]
+  | cons e es ih => simp [procRun, ih]
+
+theorem procRun_length (addr : Ref → Int) (cfg : Config) (p : Proc) (a : List Ev) : (procRun addr cfg p a).2.length = a.length := by
+  induction a generalizing p with
+  | nil => simp [procRun]
+  | cons e es ih => simp [procRun, ih]
+
+/-- The invariant behind independence: if every Lexicon's state is the state its own history leads to, it stays so. -/
+theorem procRun_state (addr : Ref → Int) (cfg : Config) (evs : List Ev) (p : Proc) (acc : Nat → List Req)
+    (h : ∀ k, p k = (run1 addr cfg {} (acc k)).1) (k : Nat) :
+    (procRun addr cfg p evs).1 k = (run1 addr cfg {} (lifeOf k (acc k) evs)).1 := by
+  induction evs generalizing p acc with
+  | nil => simpa [procRun, lifeOf] using h k
+  | cons e es ih =>
+    cases e with
+    | req j r =>
+      simp only [procRun, procStep, lifeOf]
+      have := ih (p.set j (exec1 addr cfg (p j) r).1) (fun i => if j = i then acc i ++ [r] else acc i) (by
+        intro i
+        by_cases hji : j = i
+        · subst hji
+          simp only [Proc.set, ↓reduceIte, run1, runWith_snoc]
+          rw [h j]; rfl
+        · have hij : ¬ i = j := fun e => hji e.symm
+          simp only [Proc.set, hij, hji, ↓reduceIte]; exact h i)
+      simpa using this
+    | renew j =>
+      simp only [procRun, procStep, lifeOf]
+      have := ih (p.set j {}) (fun i => if j = i then [] else acc i) (by
+        intro i
+        by_cases hji : j = i
+        · subst hji
+          simp [Proc.set, run1, runWith]
+        · have hij : ¬ i = j := fun e => hji e.symm
+          simp only [Proc.set, hij, hji, ↓reduceIte]; exact h i)
+      simpa using this
+
+
 end Ipr.Unify
